@@ -1534,6 +1534,8 @@ pub fn generate(kind: &str, seed: u64, count: usize, out: &str) {
         steps.push(stream(0, false, true));
         steps.push(map(0, true));
         steps.push(map(0, false));
+        // the piece-wise view: ropes of ropes are sliced again by enclosing sources
+        steps.push(obs("rope", 0));
         // a clone taken after the first streams: cached nodes now replay
         steps.push(json!({"op": "clone", "dst": 1, "src": 0}));
         steps.push(stream(1, true, false));
